@@ -3,6 +3,9 @@ import DimodProofs.DqmFile
 import DimodProofs.JsonContracts
 import DimodProofs.HeaderContracts
 import DimodProofs.ZipEnd
+import DimodProofs.CqmClosed
+import DimodProofs.DqmClosed
+import DimodProofs.CqmDomain
 
 /-! # C10 — a truncated model file never loads as a different model -/
 
@@ -283,5 +286,170 @@ theorem truncation_safe_dqm_zip (parse : Bytes → Option (Bool × H)) (parseVar
   rcases hp with hp | hp
   · rw [if_pos hp]; exact hall k hk
   · subst hp; simpa using hall k hk
+
+/-! ## round 7: truncation over the real byte layout; the end-record search with and without the side condition -/
+
+/-- **the backward search finds the record the writer put at the end** — always, whatever the payload: for a file
+    `w ++ e` ending in a well-formed 22-byte end record `e`, `_EndRecData` returns `e` at offset `w.length`
+    (first branch: the last 22 bytes), even when `w` contains other records.  Together with
+    `zip_prefix_rejected` (no PROPER PREFIX has one when the signature occurs only in `e`) this is the
+    end-record search in full under the side condition. -/
+theorem end_record_found (w e : Bytes) (hlen : e.length = 22) (hsig : e.take 4 = sigEOCD) (hz : e.drop 20 = [0, 0]) :
+    endRecData (w ++ e) = some ⟨w.length, e⟩ :=
+  endRecData_full w e hlen hsig hz
+
+/-- **without the side condition**: a payload that spells an end record `e'` (comment length `0`) is found as THE end
+    record of the file cut right after it — `_EndRecData` cannot tell a truncated file whose payload ends in a record
+    from a complete archive.  (For every `a`, `b`: the first `a.length + 22` bytes of `a ++ e' ++ b`.) -/
+theorem embedded_end_record_found (a e' b : Bytes) (hlen : e'.length = 22) (hsig : e'.take 4 = sigEOCD) (hz : e'.drop 20 = [0, 0]) :
+    endRecData ((a ++ e' ++ b).take (a.length + 22)) = some ⟨a.length, e'⟩ := by
+  have : (a ++ e' ++ b).take (a.length + 22) = a ++ e' := by
+    rw [List.take_left' (by simp [hlen])]
+  rw [this]
+  exact endRecData_full a e' hlen hsig hz
+
+/-- … and when the payload spells a COMPLETE archive (local entries, central directory and end record of other
+    members `zs`, written for any offset `base`), the file cut right after it OPENS and yields those other
+    members: `zipfile` shifts every offset by the integer `concat = pre.length - base`.  This is the mechanism of the defect found
+    in round 7 (`ConstrainedQuadraticModel.from_file` / `DiscreteQuadraticModel.from_file` returned the embedded
+    model for a truncated file; repaired in dimod by checking that the members tile the file from the header on / that
+    the `BIAS` section has its recorded length): the side condition of the truncation theorems cannot be dropped for
+    the loaders as they were. -/
+theorem embedded_archive_opens (crc32 : Bytes → Nat) (inflate : Bytes → Option Bytes) (pre : Bytes) (base : Nat) (zs : List ZEntry)
+    (hz : ∀ z ∈ zs, z.OK crc32 inflate) (hcount : zs.length < 256 ^ 2)
+    (hsize : base + (zipLocals zs).length + (zipCD base zs).length < 4294967295) :
+    zipOpen (readDirBytes crc32 inflate) (pre ++ zipBytes base zs) = some (zs.map fun z => (z.name, z.content)) := by
+  have h256 : (256 : Nat) ^ 4 = 4294967296 := by decide
+  obtain ⟨a, b, c⟩ := eocdRecord_shape zs.length (zipCD base zs).length (base + (zipLocals zs).length)
+  obtain ⟨d, _, _⟩ := eocdRecord_fields zs.length (zipCD base zs).length (base + (zipLocals zs).length)
+    (pre ++ (zipLocals zs ++ zipCD base zs)).length (by omega) (by omega) hcount
+  have hfile : pre ++ zipBytes base zs = (pre ++ (zipLocals zs ++ zipCD base zs)) ++
+      eocdRecord zs.length (zipCD base zs).length (base + (zipLocals zs).length) := by
+    simp [zipBytes, List.append_assoc]
+  rw [hfile]
+  exact zipOpen_full _ _ _ _ a b c (by rw [d]; simp only [List.length_append]; omega)
+    (readDirBytes_zipBytes_shift crc32 inflate pre base zs hz hcount hsize)
+
+/-- **CQM files cut at any byte offset, closed**: for every CQM in the format's domain whose file contains the end-record
+    signature only in its last 22 bytes, every proper prefix of the bytes `to_file` writes (header dictionary, members,
+    local headers, central directory, end record — `dumpCqm`) makes the whole modelled `from_file` raise; nothing loads.
+    No parameter stands for `zipfile`, `json.loads` or a parse function. -/
+theorem truncation_safe_cqm_closed (crc32 : Bytes → Nat) (inflate : Bytes → Option Bytes) (deflate : Option (Bytes → Bytes))
+    (μ : Nat → ZMeta) (s : CqmSrc) (hd : s.InDomain)
+    (hocc : ∀ i, SigAt (dumpCqm crc32 deflate μ s) i → (dumpCqm crc32 deflate μ s).length ≤ i + 22)
+    (k : Nat) (hk : k < (dumpCqm crc32 deflate μ s).length) :
+    (∃ e, loadCqm crc32 inflate ((dumpCqm crc32 deflate μ s).take k) = .err e) ∧
+    loadCqmSrc crc32 inflate ((dumpCqm crc32 deflate μ s).take k) = none := by
+  obtain ⟨e, he⟩ := truncation_safe_cqm_zip (readDirChars crc32 inflate) parseExprHeader (fun d => (loadsJ d).isSome) 8
+    (cqmCounts s.content.erase) (zipBytes (cqmFileHeader s).length (mkEntries crc32 deflate μ 0 (cqmMembers 4 s.content)))
+    hd.hdrLen hocc k hk
+  refine ⟨⟨e, he⟩, ?_⟩
+  unfold loadCqmSrc
+  have he' : loadCqm crc32 inflate ((dumpCqm crc32 deflate μ s).take k) = .err e := he
+  rw [he']
+
+/-- **DQM files cut at any byte offset, closed**: header, `BIAS` frame, `.npz` blob (`.npy` headers and data, ZIP container
+    at byte level, the end record located by the modelled `_EndRecData`), `from_numpy_vectors`, `VARS` — every proper
+    prefix of the bytes `to_file` writes raises or returns the original DQM with only padding of the `VARS` section lost,
+    provided the end-record signature occurs in the blob only in its last 22 bytes. -/
+theorem truncation_safe_dqm_closed (crc32 : Bytes → Nat) (inflate : Bytes → Option Bytes) (deflate : Option (Bytes → Bytes))
+    (μ : Nat → ZMeta) (ignore : Bool) (c : DqmContent) (labels : List FLabel)
+    (wf : DqmWF c) (hnpy : ∀ m ∈ dqmMembers c, m.OK) (hl : JOKs (serializeLabels labels)) (hn : labels.length = c.caseStarts.length)
+    (hcrc : ∀ b, crc32 b < 256 ^ 4) (hcodec : ∀ d, deflate = some d → ∀ b, inflate (d b) = some b) (hμ : ∀ i, (μ i).OK)
+    (hfit : ∀ m ∈ npzArchive (dqmMembers c), MemberFits deflate m)
+    (hsize : dqmBlobBase ignore c labels + (npzBytes crc32 deflate μ (dqmBlobBase ignore c labels) (dqmMembers c)).length < 4294967295)
+    (hocc : ∀ i, SigAt (npzBytes crc32 deflate μ (dqmBlobBase ignore c labels) (dqmMembers c)) i →
+      (npzBytes crc32 deflate μ (dqmBlobBase ignore c labels) (dqmMembers c)).length ≤ i + 22)
+    (hlen : (dumpsDict (dqmCountsDict (dqmCounts c) (dqmVariablesFlag ignore labels))).length + 65 < 2 ^ 32)
+    (hvlen : (dumpsJ (.arr (serializeLabels labels))).length + 64 < 256 ^ nlb4) :
+    ∃ pad, pad < 64 ∧ ∀ k, k < (dumpDqm crc32 deflate μ ignore c labels).length →
+      (∃ er, (dqmDecode parseDqmHeader parseVarsReal
+          (fun blob => (zipOpen (readNpzBytes crc32 inflate) blob).bind fun ms => match dqmFromMembers ms with | .ok d => some d | _ => none)
+          (fun d => d.caseStarts.length)).run ((dumpDqm crc32 deflate μ ignore c labels).take k) = .err er) ∨
+      ((dqmDecode parseDqmHeader parseVarsReal
+          (fun blob => (zipOpen (readNpzBytes crc32 inflate) blob).bind fun ms => match dqmFromMembers ms with | .ok d => some d | _ => none)
+          (fun d => d.caseStarts.length)).run ((dumpDqm crc32 deflate μ ignore c labels).take k) =
+            .ok ((dqmCountsDict (dqmCounts c) (dqmVariablesFlag ignore labels), c,
+                  if dqmVariablesFlag ignore labels then some (serializeLabels labels) else none), []) ∧
+        (dumpDqm crc32 deflate μ ignore c labels).length - pad ≤ k) := by
+  obtain ⟨x, e, hxe, h22, hsig, hz, hdir, _, hnpz, _⟩ :=
+    readDqmBlob_npz crc32 inflate deflate μ (dqmBlobBase ignore c labels) c wf hnpy hcrc hcodec hμ hfit hsize
+  have h256 : (256 : Nat) ^ 4 = 4294967296 := by decide
+  unfold dumpDqm
+  rw [hxe] at hocc hsize ⊢
+  exact truncation_safe_dqm_zip parseDqmHeader parseVarsReal (readNpzBytes crc32 inflate) _ x e (varsTextOf labels) _ _ c
+    (serializeLabels labels) (dqm_header_ok _ _ hlen) wf h22 hsig hz
+    (fun i hi => by have := hocc i hi; simp only [List.length_append] at this; omega) hdir hnpz (by omega)
+    (fun _ => ⟨VarsOK_real _ hl hvlen, by rw [serializeLabels_length, hn]⟩)
+
+/-- **DQM files cut at any byte offset, with NO condition on the payload, for the loader that checks the section length**
+    (dimod after the round-7 repair: `blob = file_like.read(length); if len(blob) != length: raise`; which of the two the
+    source does is regenerated as `Gen.dqmChecksSectionLength`): `np.load` is reached only with the complete section, so
+    a payload that spells an end record or a whole archive cannot be mistaken for one — every proper prefix raises or
+    returns the original with only `VARS` padding lost, given only that the COMPLETE blob loads.
+    `_partial`: the opener compares with `npz.length`, the length recorded in THIS file's frame, instead of the number read
+    from the frame of the prefix — the two agree on every prefix in which the opener is reached (the 4-byte length field
+    has then been read completely), an argument made outside Lean. -/
+theorem truncation_safe_dqm_length_checked_partial (parse : Bytes → Option (Bool × H)) (parseVars : Bytes → Option (List J))
+    (openNpz : Bytes → Option (List NpyMember)) (hdrText npz varsText : Bytes) (labelled : Bool) (h : H) (c : DqmContent)
+    (labels : List J) (hh : HeaderOK parse hdrText (labelled, h)) (wf : DqmWF c)
+    (hfull : openNpz npz = some (dqmMembers c)) (hsz : npz.length < 256 ^ 4)
+    (hv : labelled = true → VarsOK parseVars varsText labels ∧ labels.length = c.caseStarts.length) :
+    ∃ pad, pad < 64 ∧ ∀ k, k < (dqmEncode hdrText labelled npz varsText).length →
+      (∃ er, (dqmDecode parse parseVars (fun blob => (if blob.length ≠ npz.length then none else openNpz blob).bind fun ms =>
+            match dqmFromMembers ms with | .ok d => some d | _ => none)
+          (fun d => d.caseStarts.length)).run ((dqmEncode hdrText labelled npz varsText).take k) = .err er) ∨
+      ((dqmDecode parse parseVars (fun blob => (if blob.length ≠ npz.length then none else openNpz blob).bind fun ms =>
+            match dqmFromMembers ms with | .ok d => some d | _ => none)
+          (fun d => d.caseStarts.length)).run ((dqmEncode hdrText labelled npz varsText).take k) =
+            .ok ((h, c, if labelled then some labels else none), []) ∧
+        (dqmEncode hdrText labelled npz varsText).length - pad ≤ k) := by
+  have hz : ZipContract (fun blob => if blob.length ≠ npz.length then none else openNpz blob) npz (dqmMembers c) 0 :=
+    ⟨by simp [hfull], fun j hj hle => by omega, fun j hj => by
+      have : (npz.take j).length ≠ npz.length := by rw [List.length_take]; omega
+      show (if (npz.take j).length ≠ npz.length then none else openNpz (npz.take j)) = none
+      rw [if_pos this]⟩
+  obtain ⟨pad, hp, hall⟩ := truncation_safe_dqm parse parseVars _ hdrText npz varsText labelled h c labels 0 hh wf hz hsz hv
+  refine ⟨if pad < 64 then pad else 0, by split <;> omega, fun k hk => ?_⟩
+  rcases hp with hp | hp
+  · rw [if_pos hp]; exact hall k hk
+  · subst hp; simpa using hall k hk
+
+/-- **the repaired CQM loader's tiling check** (`_open_archive`: the members, in the order of their shifted header offsets,
+    must tile the file from where the header ended up to the central directory; modelled as `openTiled`)
+    (i) ACCEPTS every archive the writer appended — no valid file is refused, the members are read as before —, and
+    (ii) REFUSES a non-empty archive that does not start where the header ended, whatever offset it was written for: in
+    particular the archive spelled by a payload, in the file cut right after it, which `zipfile` alone opens
+    (`embedded_archive_opens`).  So the counterexample class found this round is closed at model level; the general statement
+    "every proper prefix is refused whatever the payload" for the tiling loader is not proved (see the level note). -/
+theorem tiling_check_accepts_and_refuses (crc32 : Bytes → Nat) (inflate : Bytes → Option Bytes) (pre : Bytes) (zs : List ZEntry)
+    (hz : ∀ z ∈ zs, z.OK crc32 inflate) (hcount : zs.length < 256 ^ 2)
+    (hsize : pre.length + (zipLocals zs).length + (zipCD pre.length zs).length < 4294967295) :
+    openTiled crc32 inflate pre.length (pre ++ zipBytes pre.length zs) = some (zs.map fun z => (z.name, z.content)) ∧
+    ∀ (other : Bytes) (base start : Nat) (z : ZEntry) (zs' : List ZEntry), other.length ≠ start →
+      (∀ y ∈ z :: zs', y.OK crc32 inflate) → (z :: zs').length < 256 ^ 2 →
+      base + (zipLocals (z :: zs')).length + (zipCD base (z :: zs')).length < 4294967295 →
+      openTiled crc32 inflate start (other ++ zipBytes base (z :: zs')) = none :=
+  ⟨openTiled_zipBytes crc32 inflate pre zs hz hcount hsize,
+   fun other base start z zs' hs hz' hc hsz => openTiled_embedded_none crc32 inflate other base start z zs' hs hz' hc hsz⟩
+
+/-- **the three round-7 repairs are in the source under test** (flags regenerated by `harness/translators/fileconsts.py` from
+    `_from_file_numpy`, `ConstrainedQuadraticModel.from_file` / `_open_archive` and `read_header`): the DQM loader refuses a
+    short `BIAS` section (the loader of `truncation_safe_dqm_length_checked_partial`), the CQM loader checks that the archive
+    members tile the file from the header to the central directory, and `read_header` reads the dictionary fully.  Without
+    them the truncation property FAILS on the real code for payloads that spell an archive (`embedded_archive_opens`) and for
+    file objects with short reads; a source that drops one of them breaks this theorem, and the adversarial / short-read
+    sweeps of the harness then produce the concrete failing input. -/
+theorem loader_repairs_from_source :
+    Gen.dqmChecksSectionLength = true ∧ Gen.cqmChecksArchiveTiling = true ∧ Gen.headerReadsFully = true ∧
+    Gen.dqmLoadsWholeFile = false := by decide
+
+/-- non-vacuity: the signature side condition is a Boolean check (`sigOnlyAtEnd`, sound for the hypothesis `hocc` of the
+    truncation theorems) and holds e.g. for two payload bytes followed by the end record of an empty archive; the domain
+    hypothesis `InDomain` is met by the concrete CQM of `Properties/C09.lean`.  On every generated file the harness evaluates
+    the same condition (tick `eocd sweep …`). -/
+example : sigOnlyAtEnd ([1, 2] ++ eocdRecord 0 0 0) = true ∧
+    (∀ i, SigAt ([1, 2] ++ eocdRecord 0 0 0) i → ([1, 2] ++ eocdRecord 0 0 0).length ≤ i + 22) :=
+  ⟨by decide, sigOnlyAtEnd_sound _ (by decide)⟩
 
 end C10
